@@ -20,6 +20,7 @@ func NewGenericSyncMap[K comparable, V any]() *GenericSyncMap[K, V] {
 // value is present. The ok result indicates whether value was found
 // in the map.
 func (m *GenericSyncMap[K, V]) Load(key K) (V, bool) {
+	defer VerifLockSite(&m.mtx)()
 	m.mtx.Lock()
 	defer m.mtx.Unlock()
 
@@ -29,6 +30,7 @@ func (m *GenericSyncMap[K, V]) Load(key K) (V, bool) {
 
 // Has returns true if the key is present in the map.
 func (m *GenericSyncMap[K, V]) Has(key K) bool {
+	defer VerifLockSite(&m.mtx)()
 	m.mtx.Lock()
 	defer m.mtx.Unlock()
 
@@ -38,6 +40,7 @@ func (m *GenericSyncMap[K, V]) Has(key K) bool {
 
 // Store sets the value for a key.
 func (m *GenericSyncMap[K, V]) Store(key K, value V) {
+	defer VerifLockSite(&m.mtx)()
 	m.mtx.Lock()
 	defer m.mtx.Unlock()
 
@@ -46,6 +49,7 @@ func (m *GenericSyncMap[K, V]) Store(key K, value V) {
 
 // Delete deletes the value for a key.
 func (m *GenericSyncMap[K, V]) Delete(key K) {
+	defer VerifLockSite(&m.mtx)()
 	m.mtx.Lock()
 	defer m.mtx.Unlock()
 
@@ -59,6 +63,7 @@ func (m *GenericSyncMap[K, V]) DeleteUnsafe(key K) {
 
 // Len returns the number of items in the map.
 func (m *GenericSyncMap[K, V]) Len() int {
+	defer VerifLockSite(&m.mtx)()
 	m.mtx.Lock()
 	defer m.mtx.Unlock()
 
@@ -70,6 +75,7 @@ func (m *GenericSyncMap[K, V]) Len() int {
 // Note that the callback is called while the map is locked, so it should
 // not call any methods on the map.
 func (m *GenericSyncMap[K, V]) Iterate(cb func(key K, value V) bool) {
+	defer VerifLockSite(&m.mtx)()
 	m.mtx.Lock()
 	defer m.mtx.Unlock()
 
@@ -85,6 +91,7 @@ func (m *GenericSyncMap[K, V]) Iterate(cb func(key K, value V) bool) {
 // values in the map should be safe. Calling locking methods on the map
 // from the callback will cause a deadlock.
 func (m *GenericSyncMap[K, V]) WithLockedValueDo(key K, cb func(value V) error) error {
+	defer VerifLockSite(&m.mtx)()
 	m.mtx.Lock()
 	defer m.mtx.Unlock()
 
